@@ -88,6 +88,9 @@ def run(ctx, prefix):
         scripts.append([dict(op="set", addr="/fx_on", ty="T"), dict(op="set", addr="/fx/type", ty="i", v=1), dict(op="set", addr="/fx/level", ty="i", v=77), dict(op="set", addr="/pi", ty="i", v=9), dict(op="saveload", seed=5)])
         for what, text in BAD_FILES:
             scripts.append([dict(op="loadraw", text=text, what=what)])
+        # a line without a value is a query the port answers: whatever the loader makes of it, it must come back
+        scripts.append([dict(op="loadraw", text="% RT OSC v0.3.1 savefile\n% app1 v1.2.3\n/pi\n", what="line without a value", any_result=True)])
+        scripts.append([dict(op="loadraw", text="% RT OSC v0.3.1 savefile\n% app1 v1.2.3\n/pi 7\n/pt\n/pf 1.5\n", what="line without a value between two lines", any_result=True)])
         # loading through a dispatcher with hooks (discard / abort / rename / change an argument), on a sample of the scripts above
         nh = 0
         for k, sc in enumerate(list(scripts)):
